@@ -151,7 +151,7 @@ var c01QuickCfgs = []c01Cfg{
 	{c01Side{Mws: 1}, c01Side{Legacy: true, Posts: 2}},
 }
 
-var c01ErrCodes = []int32{78, 1, 2, -1, -6, -7, 127, 128, 255, 256, 32767, 65536, 2147483647, -2147483648, 10000}
+var c01ErrCodes = []int32{78, 1, 2, -1, -6, -7, 127, 128, -128, -129, 255, 256, 32767, 32768, -32768, -32769, 65535, 65536, 2147483647, 2147483646, -2147483648, -2147483647, 10000}
 
 func c01RandCall(rng *rand.Rand, fn string) c01Call {
 	c := c01Call{Fn: fn, Seed: rng.Int63()}
@@ -230,6 +230,14 @@ func c01Gen(tier string, rng *rand.Rand) []c01Case {
 			}
 			one(n)
 		}
+		// a tars.Error whose code is 0, the protocol's success marker (known findings e2e/error-code-zero/...)
+		if ci == 0 || ci == 3 || tier == "thorough" {
+			for _, fn := range []string{"ping", "note", "fInt", "outsOnly", "fItem"} {
+				z := c01RandCall(rng, fn)
+				z.ErrKind, z.ErrCode, z.ErrMsg, z.OneWay = 1, 0, B("failed with code zero"), false
+				one(z)
+			}
+		}
 		// out variables that already hold values
 		for k := 0; k < 3*per; k++ {
 			p := c01RandCall(rng, []string{"fBytes", "fItem", "fBig", "fVecInt", "fMapSS", "mixed", "many", "fString", "outsOnly", "fUBytes", "fMapItem"}[rng.Intn(11)])
@@ -289,9 +297,12 @@ func c01Gen(tier string, rng *rand.Rand) []c01Case {
 		// frame's length header, single bytes, everything coalesced (both directions)
 		if ci == 0 || ci == 4 || tier == "thorough" {
 			for seg := 1; seg <= 8; seg++ {
-				reps := 2
-				if seg == 7 {
-					reps = 1
+				reps := 1
+				if tier == "thorough" && seg != 7 {
+					reps = 2
+				}
+				if tier != "thorough" && ci != 0 && (seg < 2 || seg > 4) { // quick: the second configuration only gets the cuts 1..3 bytes into the header
+					continue
 				}
 				for r := 0; r < reps; r++ {
 					cs := c01Case{Cfg: cfg, Seg: seg}
@@ -605,10 +616,10 @@ func init() {
 		for i := 0; i < len(cases) && i < 3; i++ {
 			res.Samples = append(res.Samples, cases[(i*7919)%len(cases)])
 		}
-		// shards of at most 60 cases and about 150 KB of case text (large payloads evaluate slowly; the driver runs the shards in parallel)
+		// shards of at most 150 cases and about 220 KB of case text (large payloads evaluate slowly; the driver runs the shards in parallel)
 		for off, nsh := 0, 0; off < len(terms); nsh++ {
 			end, size := off, 0
-			for end < len(terms) && end-off < 60 && (end == off || size+len(terms[end]) <= 150000) {
+			for end < len(terms) && end-off < 150 && (end == off || size+len(terms[end]) <= 220000) {
 				size += len(terms[end])
 				end++
 			}
